@@ -98,6 +98,21 @@ example :
     ((Conn.connect (DB.init .rollback)).run [.logToken, .autocommit]).db.raw.finalize = [false, true] := by
   decide
 
+/-! ## a BaseException during reset-on-return
+
+`checkin_clean` quantifies over all three fault kinds; this is the interrupt instance: INSERT,
+then the DBAPI's rollback() raises KeyboardInterrupt while the pool resets the connection
+(close(): the interrupt comes out of close(); GC: it is swallowed).  The record is
+invalidated and comes back EMPTY; the next checkout opens a fresh DBAPI connection. -/
+
+example :
+    let c := (Conn.connect (DB.init .rollback)).run [.exec (.ins 1), .rollback, .exec (.ins 2),
+                                                      .commit, .arm .rollback .kbi]
+    (c.step .close).2 = .interrupted ∧ (c.step .close).1.db.idle = [none] ∧
+    (c.step .gc).1.db.idle = [none] ∧
+    (((c.step .close).1.step .connect).1.db.raw.rid, ((c.step .close).1.step .connect).1.db.raw.working)
+      = (1, [2]) := by decide
+
 /-! ## non-vacuity -/
 
 /-- a history that leaves a transaction with a savepoint open and is garbage collected,
